@@ -119,6 +119,10 @@ func (cc *canonCtx) expand(v ssa.Value, depth int) poly {
 		}
 	case *ssa.Convert:
 		return cc.expand(x.X, depth+1)
+	case *ssa.UnOp:
+		if x.Op.String() == "-" {
+			return polyMul(cc.expand(x.X, depth+1), poly{"": -1})
+		}
 	case *ssa.BinOp:
 		switch x.Op.String() {
 		case "+":
